@@ -183,8 +183,8 @@ def real_cases(tier):
         probe = EquationSolver(BLOCKS[name][0], run_equation_reduction=False)
         n = len([v for v, _ in probe.Parser.Endogenous if v != 't'])
         for reduce in (False, True):
-            if not reduce and name == 'deco-tree':
-                continue      # its product equation is simultaneous when unreduced: the affine residual bound does not apply
+            if not reduce and name in ('deco-tree', 'negated-alias'):
+                continue      # their product / power equations are simultaneous when unreduced: the affine residual bound does not apply
             if not reduce and name == 'alias-chain' and tier == 'quick':
                 continue
             if tier == 'quick':
@@ -218,7 +218,7 @@ def real_cases(tier):
             continue
         out.append((name, 1e-2, 2, True, 2 if name in ('one-affine', 'lagged') else 1, 'neighbour'))
         if tier == 'thorough':
-            out.append((name, 1e-2, 3, False if name != 'deco-tree' else True, 1, 'neighbour'))
+            out.append((name, 1e-2, 3, False if name not in ('deco-tree', 'negated-alias') else True, 1, 'neighbour'))
     # the same solve with step tracing switched on for the last of two periods (the exogenous value moves between them)
     for name in ('deco-dependent-first', 'deco-tree', 'lagged') + (('alias-chain', 'two-coupled', 'user-function') if tier == 'thorough' else ()):
         out.append((name, 1e-2, 2, True, 2, 'trace'))
